@@ -118,7 +118,10 @@ Worst(a, b) == IF "out" \in {a, b} THEN "out" ELSE IF "edge" \in {a, b} THEN "ed
 Domain(fmt, kc, v) == Worst(KeyDom(fmt, kc), ValDom(fmt, v))
 \* data the format's domain does not clearly admit: an empty text cell cannot be told from a missing one in CSV, AIF
 \* and Excel (judged "preserved or refused"); JSON carries it
-LayoutDom(fmt, layout) == IF layout = "extra_text_empty" /\ fmt # "json" THEN "edge" ELSE "in"
+\* text cells that spell numbers / booleans / None: by the same reading as for metadata text they are outside what
+\* the text formats promise to carry ("preserved or refused", never changed)
+LayoutDom(fmt, layout) ==
+  IF layout \in {"extra_text_empty", "extra_text_numlike", "extra_text_wordlike"} /\ fmt # "json" THEN "edge" ELSE "in"
 \* verdict classes: preserved | refused_pg (a pyGAPS error) | refused_other (any other exception) | changed
 Allowed(dom) == IF dom = "in" THEN {"preserved"} ELSE {"preserved", "refused_pg"}
 
@@ -390,7 +393,10 @@ PointLayouts == <<"one_point", "ads_only", "des_only", "both", "interleaved", "b
                   \* falsy cells: a point at pressure exactly 0.0 (first of the adsorption branch / in the middle of a
                   \* desorption scan / last point), loading exactly 0.0, extra numeric columns holding 0.0 and 0,
                   \* an extra text column holding the empty text
-                  "zero_start", "zero_mid", "zero_end", "zero_loading", "extra_zero", "extra_text_empty">>
+                  "zero_start", "zero_mid", "zero_end", "zero_loading", "extra_zero", "extra_text_empty",
+                  \* an extra TEXT column whose entries look like numbers ('007', '1e3', '12') / like booleans, None, NaN
+                  \* ('True', 'None', 'nan'): compared by value and type, cell by cell
+                  "extra_text_numlike", "extra_text_wordlike">>
 ModelLayouts == <<"constructed", "as_fitted", "fitted", "fitted_int">>
 ModelSeq == <<"Henry", "Langmuir", "DSLangmuir", "TSLangmuir", "BET", "GAB", "Freundlich", "DA", "DR", "Quadratic",
               "TemkinApprox", "Virial", "Toth", "JensenSeaton", "FHVST", "WVST">>
@@ -401,14 +407,18 @@ AdsSeq == <<"known", "alias", "custom">>
 RepSeq == <<0, 1, 2>>
 \* magnitude class of the numbers a model carries (parameters, ranges, fit error): of order one / tiny (1e-6..1e-12,
 \* many significant digits: affinity constants with the pressure in Pa) / huge (1e6..1e12) / full float64 precision (1/3)
-MagSeq == <<"order_one", "tiny", "huge", "many_digits">>
+\* zero: one parameter exactly 0 (0.0 or the integer 0), fit error 0.0, ranges starting at 0.0
+MagSeq == <<"order_one", "tiny", "huge", "many_digits", "zero">>
+\* row labels of the table a point isotherm is built from: 0..n-1 / shifted / permuted (after sort_values) /
+\* with gaps and not starting at 0 (after boolean filtering) / text labels
+RowLabSeq == <<"default", "shifted", "permuted", "gaps", "strings">>
 LayoutsOf(cls) == CASE cls = "point" -> PointLayouts [] cls = "model" -> ModelLayouts [] OTHER -> <<"na">>
 VCSeqX == VCSeq \o <<"absent">>
 
 P == 29          \* prime >= every dimension size: orthogonal array OA(P^2, P+1, P, 2)
 Pick(seq, d) == seq[(d % Len(seq)) + 1]
 
-\* a row from its 15 digits (each in 0..P-1); dependent dimensions are interpreted per class / format
+\* a row from its 16 digits (each in 0..P-1); dependent dimensions are interpreted per class / format
 Row(fmt, dg) ==
   LET cls == Pick(ClsSeq, dg[1])
       vc == Pick(VCSeqX, dg[7]) IN
@@ -419,9 +429,10 @@ Row(fmt, dg) ==
    target |-> IF fmt = "xl" THEN "file" ELSE Pick(TargetSeq, dg[10]),
    sep |-> IF fmt = "csv" THEN Pick(SepSeq, dg[11]) ELSE NA,
    matc |-> Pick(MatSeq, dg[12]), ads |-> Pick(AdsSeq, dg[13]), rep |-> Pick(RepSeq, dg[14]),
-   mag |-> IF cls = "model" THEN Pick(MagSeq, dg[15]) ELSE NA]
+   mag |-> IF cls = "model" THEN Pick(MagSeq, dg[15]) ELSE NA,
+   rowlab |-> IF cls = "point" THEN Pick(RowLabSeq, dg[16]) ELSE NA]
 
-NDims == 15
+NDims == 16
 \* orthogonal array: column k of run (a, b) is a + k*b (+ a seeded shift per column) mod P; any two columns
 \* k1 # k2 run through all P^2 pairs because (k1 - k2) is invertible mod P.  The shift is quadratic in k so
 \* that different seeds give different arrays (a shift linear in k only renames the runs).
@@ -434,7 +445,7 @@ OAStrength2 ==
     Cardinality({<<OADigit(k1, a, b, sd), OADigit(k2, a, b, sd)>> : a \in 0..(P - 1), b \in 0..(P - 1)}) = P * P
 DimSizesFit ==
   \A s \in {ClsSeq, PModeSeq, LBasisSeq, MBasisSeq, TClassSeq, PointLayouts, ModelLayouts, VCSeqX, KCSeq, ModelSeq,
-            TargetSeq, SepSeq, MatSeq, AdsSeq, MagSeq} : Len(s) <= P
+            TargetSeq, SepSeq, MatSeq, AdsSeq, MagSeq, RowLabSeq} : Len(s) <= P
 
 \* the other dimensions of a product row vary with the row index (seeded), so products also sweep them
 Varied(fmt, n, seed, fixed) ==
@@ -477,6 +488,11 @@ ProductModelMag(fmt, seed) ==
      LET j == i - 1 IN
      Varied(fmt, i, seed, (1 :> 2) @@ (9 :> (j % Len(ModelSeq))) @@ (15 :> ((j \div Len(ModelSeq)) % Len(MagSeq)))
                           @@ (6 :> (j \div (Len(ModelSeq) * Len(MagSeq)))))]
+\* every point layout x every row labelling of the source table
+ProductRowLab(fmt, seed) ==
+  [i \in 1..(Len(PointLayouts) * Len(RowLabSeq)) |->
+     LET j == i - 1 IN
+     Varied(fmt, i, seed, (1 :> 1) @@ (6 :> (j % Len(PointLayouts))) @@ (16 :> (j \div Len(PointLayouts))))]
 \* material class x adsorbate class x class
 ProductMat(fmt, seed) ==
   [i \in 1..(3 * 6 * 3) |->
@@ -494,7 +510,7 @@ ProductCLVK(fmt, seed) ==
 
 Rows(fmt, tier, seed) ==
   LET core == ProductCLV(fmt, seed) \o ProductKV(fmt, seed) \o ProductModels(fmt, seed) \o ProductModelTemp(fmt, seed)
-              \o ProductModelMag(fmt, seed) \o Pairwise(fmt, seed) IN
+              \o ProductModelMag(fmt, seed) \o ProductRowLab(fmt, seed) \o Pairwise(fmt, seed) IN
   IF tier = "quick" THEN core
   ELSE core \o ProductUnits(fmt, seed) \o ProductMat(fmt, seed) \o ProductCLVK(fmt, seed + 3) \o ProductKV(fmt, seed + 7)
             \o Pairwise(fmt, seed + 1) \o Pairwise(fmt, seed + 2) \o Pairwise(fmt, seed + 3) \o Pairwise(fmt, seed + 4)
